@@ -445,3 +445,9 @@ PROPS["C15"]["harnesses"] += [
     H("c15_opt_vec_size_hint_not_trusted", T, module=SM, bounds="ignore_unknown_opt_vec: 3 elements behind every announced length"),
 ]
 PROPS["C15"]["functions"] += ["<Bytes as Deserialize>::deserialize (visit_seq)", "utils::serde::ignore_unknown_opt_vec"]
+
+PROPS["C01"]["engines"] = [_e2.engine]
+PROPS["C01"]["e2"] = ["rp_id"]
+PROPS["C01"]["trusted"] = E2_TRUST
+PROPS["C01"]["functions"] += ["E2: RpIdVerifier::{assert_valid_rp_id, assert_android_rp_id} and their closures (MIR): provenance of the suffix provider's argument"]
+PROPS["C01"]["technique"] = "Kani/CBMC bounded model checking (suffix relation, scheme, localhost, registrable domain) + symbolic path execution of rustc MIR (argument provenance of the suffix lookup)"
